@@ -96,20 +96,23 @@ def VField.add (a b : VField d α) : VField d α := fun idx => (a idx).add (b id
 def VField.sub (a b : VField d α) : VField d α := fun idx => (a idx).sub (b idx)
 def VField.smul (c : α) (a : VField d α) : VField d α := fun idx => Vec.smul c (a idx)
 
-/-- core/flow.py `compose_svfs(u, v, bch_terms)` @138-159 (BCH series, `bch_terms ∈ [0, 5]`). -/
-def composeSvfs (lb : VField d α → VField d α → VField d α) (bchTerms : Nat) (u v : VField d α) : VField d α :=
+/-- the BCH combination of core/flow.py `compose_svfs` @138-159 given the bracket fields
+    `vu = [v,u]`, `vvu = [v,[v,u]]`, `uvu = [u,[v,u]]`, `uvvu = [u,[v,[v,u]]]` (`bch_terms ∈ [0, 5]`). -/
+def bchCombine (bchTerms : Nat) (u v vu vvu uvu uvvu : VField d α) : VField d α :=
   let one : α := ((1 : Nat) : α)
   let w := v.add u
-  let vu := lb v u
   let w := if 1 ≤ bchTerms then w.add (VField.smul (one / ((2 : Nat) : α)) vu) else w
-  let vvu := lb v vu
   let w := if 2 ≤ bchTerms then w.add (VField.smul (one / ((12 : Nat) : α)) vvu) else w
-  let uvu := lb u vu
   let w := if 3 ≤ bchTerms then w.sub (VField.smul (one / ((12 : Nat) : α)) uvu) else w
-  let uvvu := lb u vvu
   let w := if 4 ≤ bchTerms then
       w.sub (VField.smul ((if bchTerms = 4 then one else ((2 : Nat) : α)) / ((48 : Nat) : α)) uvvu) else w
   w
+
+/-- core/flow.py `compose_svfs(u, v, bch_terms)` @138-159 for a bracket operation `lb`. -/
+def composeSvfs (lb : VField d α → VField d α → VField d α) (bchTerms : Nat) (u v : VField d α) : VField d α :=
+  let vu := lb v u
+  let vvu := lb v vu
+  bchCombine bchTerms u v vu vvu (lb u vu) (lb u vvu)
 
 end
 end Deepali
